@@ -1054,7 +1054,21 @@ def splice_fn(fs, stats, canary=False, stub=False):
             if code[j].text == pat[0] and [t.text for t in code[j:j + len(pat)]] == pat:
                 hits.append(j)
         if len(hits) < n:
-            stats.setdefault("warnings", []).append({"fn": fs.name, "what": "anchor `%s` #%d not found in %s::%s (proof hint dropped)" % (stmt, n, fs.file, fs.name)})
+            # the anchored statement itself was edited: fall back to the longest prefix of the anchor (>= 3 tokens) that
+            # still occurs exactly once in the function, so that the hint stays in place and Verus judges the edited code
+            alt = None
+            for cut in range(len(pat) - 1, 2, -1):
+                sub = pat[:cut]
+                h2 = [j for j in range(body_open, body_close - cut + 2)
+                      if code[j].text == sub[0] and [t.text for t in code[j:j + cut]] == sub]
+                if len(h2) == 1:
+                    alt = (h2[0], cut)
+                    break
+            if alt is None or where == "after":
+                stats.setdefault("warnings", []).append({"fn": fs.name, "what": "anchor `%s` #%d not found in %s::%s (proof hint dropped)" % (stmt, n, fs.file, fs.name)})
+                continue
+            stats.setdefault("notes", []).append({"fn": fs.name, "what": "anchor `%s` matched by its unique prefix of %d tokens" % (stmt, alt[1])})
+            inserts.append((code[alt[0]].start, "\n" + ptext.rstrip() + "\n", "%s `%s` (prefix match)" % (where, stmt)))
             continue
         j = hits[n - 1]
         pos = code[j].start if where == "before" else code[j + len(pat) - 1].end
@@ -1277,6 +1291,7 @@ def build(unit_path, prelude_paths, canary=False):
         fixed.append(pick)
         ls = le
     warnings = stats.pop("warnings", [])
+    stats.pop("notes", None)
     info = {"unit": unit["name"], "functions": fns, "rewrite_counts": stats, "warnings": warnings}
     return gen, fixed, info
 
